@@ -21,6 +21,8 @@
 // Dawg of the word list, whatever way the API was used to get a Dawg holding these words):
 //   <src><via><tgt>[:<hex>.<hex>...]
 //   src  n dawg.New | z zero-value Builder, Add..., Finish | i Builder after Initialise |
+//        j,J the same two with rejected Adds in between (duplicates, earlier words, prefixes:
+//        Add returns its documented error and the Builder is used further) |
 //        r a Builder that first built the other word list, then Initialise, then this one |
 //        t,T,m,M GobDecode of a stream written by another producer (t the unmerged trie, m a
 //        partly merged automaton; capital: sparse large ids instead of small ones)
@@ -417,6 +419,39 @@ func build(how byte, ws [][]byte) (*dawg.Dawg, error) {
 		d, err := dawg.New(cw)
 		scribble(cw...)
 		return d, err
+	case 'j', 'J': // a Builder that also sees Adds it must refuse (each returns an error)
+		b := new(dawg.Builder)
+		if how == 'J' {
+			b.Initialise()
+		}
+		refuse := func(w []byte) {
+			cw := append([]byte{}, w...)
+			if b.Add(cw) == nil {
+				panic("refused-add-accepted") // becomes the observation "panic": never on a correct library
+			}
+			scribble(cw)
+		}
+		for k, w := range ws {
+			cw := append([]byte{}, w...)
+			if err := b.Add(cw); err != nil {
+				return nil, err
+			}
+			scribble(cw)
+			if (k+len(w))%2 == 0 {
+				refuse(w) // the word just added, again
+			}
+			if k > 0 && (k+len(w))%3 == 0 {
+				refuse(ws[(k*7+len(w))%k]) // an earlier word
+			}
+			if len(w) > 0 && (k+len(w))%5 < 2 {
+				refuse(w[:len(w)*((k+len(w))%5)/2]) // a prefix of it (empty or half): sorts before it
+			}
+			if k == len(ws)-1 {
+				refuse(w)
+				refuse(ws[0])
+			}
+		}
+		return b.Finish()
 	case 't', 'T', 'm', 'M': // a stream of another producer
 		salt := uint64(len(ws)) * 1000003
 		for _, w := range ws {
@@ -803,6 +838,18 @@ func exec(line string) hx.Result {
 	}
 	if s1 != s0 || s2 != s0 {
 		res.Viol = append(res.Viol, hx.Fail("C13:searcher-state", "searchers not back in their initial state: before %s, after first %s, after second %s", s0, s1, s2))
+	}
+	// a third run with the same objects
+	{
+		w9, i9 := d.Search(srch...)
+		r9 := e.hold("the third Search", w9, i9)
+		settle(&res, ls, "third Search", len(w9))
+		if r9 != want {
+			res.Viol = append(res.Viol, hx.Fail("C13:oracle-third", "third Search (same searcher objects) returned %s, the matching words with ranks are %s", r9, want))
+		}
+		if s3 := states(ls, live.proj); s3 != s0 {
+			res.Viol = append(res.Viol, hx.Fail("C13:searcher-state", "searchers not back in their initial state after the third Search: before %s, after %s", s0, s3))
+		}
 	}
 	// the same searcher objects, as the two runs left them, on another Dawg (the Dawg of the
 	// other word list of the provenance, or of the words without their last letters): they are
@@ -1206,7 +1253,7 @@ func randSpec(r *hx.Rng, alpha []byte, w []byte, blank byte) spec {
 
 // ---------------------------------------------------------------- provenance
 
-var provSrcs = []byte("nzirtTmM")
+var provSrcs = []byte("nzirtTmMjJ")
 var provVias = []byte("ge2")
 var provTgts = []byte("fnzidstm")
 
@@ -1813,6 +1860,79 @@ func gen(g *hx.Gen) {
 				tk = 'A'
 			}
 			do([]spec{{kind: tk, body: tiny, blank: blank}}, words)
+		}
+	}
+
+	// multiplicities: words and queries made of one or two letters, a^k, a^i b a^j, a^k b, b a^k,
+	// a^i b^j, with k around 127/128, 255/256/257, 300 (and 511..513, 600 in thorough): a
+	// letter's count in an anagram, the number of blanks and the pattern index cross those values;
+	// the stored words have the same shapes, so that matches exist
+	mults := []int{127, 128, 129, 255, 256, 257, 300}
+	if g.Thorough() {
+		mults = append(mults, 511, 512, 513, 600)
+	}
+	for _, k := range mults {
+		for rep := g.Pick(3, 12); rep > 0; rep-- {
+			alpha := randAlphabet(r)
+			a, b := alpha[0], alpha[len(alpha)-1]
+			if a == b {
+				b = a + 1
+			}
+			rp := func(c byte, n int) []byte { return bytes.Repeat([]byte{c}, n) }
+			cat := func(ps ...[]byte) []byte {
+				var o []byte
+				for _, p := range ps {
+					o = append(o, p...)
+				}
+				return o
+			}
+			i := k / 2
+			if r.Bool() {
+				i = r.Range(1, k-1)
+			}
+			shapes := [][]byte{
+				rp(a, k),
+				cat(rp(a, i), []byte{b}, rp(a, k-i)),
+				cat(rp(a, k), []byte{b}),
+				cat([]byte{b}, rp(a, k)),
+				cat(rp(a, i), rp(b, k-i)),
+			}
+			words := sortDedupe(append(copies(shapes),
+				rp(a, k-1), rp(a, k+1), cat(rp(a, i+1), []byte{b}, rp(a, k-i-1)), cat(rp(a, k-1), []byte{b}, []byte{a}),
+				cat([]byte{b}, rp(a, k-1)), cat(rp(a, i), rp(b, k-i+1)), rp(a, 3), []byte{b}))
+			blank := randBlank(r, alpha)
+			for _, sh := range shapes {
+				body := append([]byte{}, sh...)
+				kind := byte('A')
+				switch r.Intn(4) {
+				case 0: // as it is (for an anagram the constructor's sort then leaves several entries per letter)
+				case 1:
+					v := make([]byte, len(body))
+					for x, y := range r.Perm(len(body)) {
+						v[x] = body[y]
+					}
+					body = v
+				case 2:
+					for n := r.Range(1, 3); n > 0; n-- {
+						body[r.Intn(len(body))] = blank
+					}
+				default:
+					kind = 'P'
+					for n := r.Intn(3); n > 0; n-- {
+						body[r.Intn(len(body))] = blank
+					}
+				}
+				specs := []spec{{kind: kind, body: body, blank: blank}}
+				if r.Chance(1, 4) {
+					specs = append(specs, spec{kind: 'A', body: append([]byte{}, sh...), blank: blank})
+				}
+				specs = carriers(r, specs, 6)
+				if r.Chance(1, 3) {
+					doP(randProv(r, alpha, words), specs, words)
+				} else {
+					do(specs, words)
+				}
+			}
 		}
 	}
 
